@@ -1241,3 +1241,10 @@ package vanguard
 //@   requires req != nil && req.URL != nil
 //@   ensures[C18] r0 != nil && typeIs(r0, restClientProtocol) && r1 != nil ==> !(has(r1, "connect") && len(r1["connect"]) > 0 && r1["connect"][0] == "v1")
 //@   ensures[C18] r0 != nil && typeIs(r0, connectUnaryGetClientProtocol) ==> req.Method == "GET"
+
+// C06 / C17: rules accumulate over several WithRules options (none replaces an earlier one), so the
+// set of bindings does not depend on how the rules were grouped into options.
+//@ func WithRules$1
+//@   requires opts != nil
+//@   ensures[C06] len(opts.rules) >= old(len(opts.rules))
+//@   ensures[C06] forall k in [0, old(len(opts.rules))): opts.rules[k] == old(opts.rules[k])
